@@ -258,18 +258,18 @@ pub fn run(ctx: &Ctx) {
     let n = ctx.tier.pick(25_000, 400_000);
     ctx.run_prop(
         "tcp-generated-databases",
-        "proptest clustered TCP databases (1..30 labels x 1..4 signatures over few layouts / quirk lists so that index buckets collide and distances tie; every wildcard mix of IP version and payload class) x 60 observations each (instances of database signatures with up to two perturbed non-decisive fields, or free-form) vs exhaustive scan in database order; also through huginn_net_tcp::SignatureMatcher (request and response tables); non-trivial: >= 2 accepting entries or a wildcard in an indexed field of the winner",
+        "proptest clustered TCP databases (1..30 labels x 0..3 signatures - a label may have no `sig` line - over few layouts / quirk lists so that index buckets collide and distances tie; every wildcard mix of IP version and payload class) x 60 observations each (instances of database signatures with up to two perturbed non-decisive fields, or free-form) vs exhaustive scan in database order; also through huginn_net_tcp::SignatureMatcher (request and response tables); non-trivial: >= 2 accepting entries or a wildcard in an indexed field of the winner",
         n,
         || {
             (
-                vec(vec(clustered_tcp_sig(), 1..4), 1..30),
+                vec(prop_oneof![1 => Just(vec![]), 9 => vec(clustered_tcp_sig(), 1..4)], 1..30),
                 vec((proptest::option::weighted(0.6, any::<u16>()), vec(any::<u16>(), 8), vec((0u8..5, any::<u16>()), 0..3), clustered_tcp_sig()), 60),
             )
                 .prop_map(|(db, obs)| TcpDbCase { db, obs })
         },
         |c: &TcpDbCase, st: &mut Stats| {
             st.evals = st.evals.saturating_sub(1);
-            st.sample(|| json!({"labels": c.db.len(), "first_sig": format!("{}", c.db[0][0].db()), "first_obs": format!("{}", tcp_observation(c, &c.obs[0]))}));
+            st.sample(|| json!({"labels": c.db.len(), "first_sig": c.db.iter().flatten().next().map(|x| format!("{}", x.db())), "first_obs": format!("{}", tcp_observation(c, &c.obs[0]))}));
             check_tcp_case(c, st)
         },
     );
@@ -278,10 +278,10 @@ pub fn run(ctx: &Ctx) {
         "http-generated-databases",
         "proptest clustered HTTP databases (versions 0/1/*, 5 header lists with optional headers, 3 absent lists, 4 software strings) x 60 observations each over HTTP/1.0, 1.1, 2 and 3 (database lists with dropped / changed headers) vs exhaustive scan, request and response tables, also through huginn_net_http::SignatureMatcher; non-trivial: >= 2 accepting entries or a `*`-version winner",
         n,
-        || (vec(vec(clustered_http_sig(), 1..4), 1..25), vec((0u8..4, any::<u16>(), 0u8..4, 0u8..3, 0u8..5), 60)).prop_map(|(db, obs)| HttpDbCase { db, obs }),
+        || (vec(prop_oneof![1 => Just(vec![]), 9 => vec(clustered_http_sig(), 1..4)], 1..25), vec((0u8..4, any::<u16>(), 0u8..4, 0u8..3, 0u8..5), 60)).prop_map(|(db, obs)| HttpDbCase { db, obs }),
         |c: &HttpDbCase, st: &mut Stats| {
             st.evals = st.evals.saturating_sub(1);
-            st.sample(|| json!({"labels": c.db.len(), "first_sig": format!("{}", c.db[0][0].db()), "obs0": format!("{:?}", c.obs[0])}));
+            st.sample(|| json!({"labels": c.db.len(), "first_sig": c.db.iter().flatten().next().map(|x| format!("{}", x.db())), "obs0": format!("{:?}", c.obs[0])}));
             check_http_case(c, st)
         },
     );
